@@ -16,7 +16,7 @@
    copying or evaluating shows up as a changed mask of an earlier tree.                 *)
 EXTENDS Naturals, Sequences, FiniteSets, TLC
 
-CONSTANTS Leaf, LeafSeq, MaxPool, Modes, NViews
+CONSTANTS Leaf, LeafSeq, MaxPool, Modes, NViews, EditLeaves
 
 VARIABLES pool, edit, tts, ett, act
 vars == <<pool, edit, tts, ett, act>>
@@ -111,7 +111,7 @@ Next ==
     \/ \E i \in DOMAIN pool, j \in DOMAIN pool : ManyOr2(i, j)
     \/ \E i \in DOMAIN pool, j \in DOMAIN pool, k \in DOMAIN pool : (i <= 3 /\ j <= 3) /\ ManyOr3(i, j, k)
     \/ \E i \in DOMAIN pool, v \in 1..NViews : Evaluate(i, v)
-    \/ \E m \in Modes, l \in Leaf : EditMode(m, l)
+    \/ \E m \in Modes, l \in EditLeaves : EditMode(m, l)
 
 Spec == Init /\ [][Next]_vars
 
